@@ -59,6 +59,35 @@ def pair_cases(ck):
         out.append(('named-number-in-constraint', ['%sNn%d' % (q, k), '%sSub%d' % (r, k)],
                     'Mb%d DEFINITIONS ::= BEGIN\n%sNn%d ::= INTEGER { lo(%d), hi(%d) } (lo..hi)\n%sSub%d ::= %sNn%d (lo..%d)\nEND\n' % (k, q, k, lo, hi, r, k, q, k, hi - 1),
                     'Mb%d DEFINITIONS ::= BEGIN\n%sNn%d ::= INTEGER { lo(%d), hi(%d) } (%d..%d)\n%sSub%d ::= %sNn%d (%d..%d)\nEND\n' % (k, q, k, lo, hi, lo, hi, r, k, q, k, lo, hi - 1)))
+        # another type defining the same identifiers with other numbers, sorting before or after
+        dec = rng.choice(PREFIXES)
+        out.append(('named-number-with-decoy', ['%sNn%d' % (q, k), '%sSub%d' % (r, k)],
+                    'Mf%d DEFINITIONS ::= BEGIN\n%sDecoy%d ::= INTEGER { lo(%d), hi(%d) }\n%sNn%d ::= INTEGER { lo(%d), hi(%d) } (lo..hi)\n%sSub%d ::= %sNn%d (lo..%d)\nEND\n'
+                    % (k, dec, k, lo - 7, hi + 11, q, k, lo, hi, r, k, q, k, hi - 1),
+                    'Mf%d DEFINITIONS ::= BEGIN\n%sDecoy%d ::= INTEGER { lo(%d), hi(%d) }\n%sNn%d ::= INTEGER { lo(%d), hi(%d) } (%d..%d)\n%sSub%d ::= %sNn%d (%d..%d)\nEND\n'
+                    % (k, dec, k, lo - 7, hi + 11, q, k, lo, hi, lo, hi, r, k, q, k, lo, hi - 1)))
+        # several instantiations inside one container
+        args = [('BOOLEAN', 3), ('OCTET STRING', 200), ('NULL', 70000)][:rng.randint(2, 3)]
+        rng.shuffle(args)
+        win = '%sWin%d' % (dec, k)
+        sug = 'Mg%d DEFINITIONS AUTOMATIC TAGS ::= BEGIN\n%s {T, INTEGER:n} ::= SEQUENCE { a T, b INTEGER (0..n) }\n%sFrame%d ::= SEQUENCE { %s }\nEND\n' \
+              % (k, win, p, k, ', '.join('m%d %s {%s, %d}' % (i, win, a, n) for i, (a, n) in enumerate(args)))
+        exp = 'Mg%d DEFINITIONS AUTOMATIC TAGS ::= BEGIN\n%sFrame%d ::= SEQUENCE { %s }\nEND\n' \
+              % (k, p, k, ', '.join('m%d SEQUENCE { a %s, b INTEGER (0..%d) }' % (i, a, n) for i, (a, n) in enumerate(args)))
+        out.append(('parameterized-in-components', ['%sFrame%d' % (p, k)], sug, exp))
+        # notations combined: the copied / selected / class field type carries a value reference
+        vref = '%stop%d' % (rng.choice(PREFIXES).lower(), k)
+        base, wide, shape, tube = '%sBase%d' % (q, k), '%sWide%d' % (r, k), '%sShape%d' % (p, k), '%sTube%d' % (dec, k)
+        cls2 = 'ITM%s' % 'ABCDEFGHIJ'[k % 10]
+        sug = ('Mh%d DEFINITIONS AUTOMATIC TAGS ::= BEGIN\n%s INTEGER ::= %d\n%s ::= SEQUENCE { depth INTEGER (0..%s), ok BOOLEAN }\n'
+               '%s ::= SEQUENCE { more BOOLEAN, COMPONENTS OF %s }\n%s ::= CHOICE { radius INTEGER (0..%s), name IA5String }\n%s ::= radius < %s\n'
+               '%s ::= CLASS { &id INTEGER (0..%s) UNIQUE, &flag BOOLEAN }\n%sRec%d ::= SEQUENCE { id %s.&id, flag %s.&flag }\nEND\n'
+               % (k, vref, top, base, vref, wide, base, shape, vref, tube, shape, cls2, vref, p, k, cls2, cls2))
+        exp = ('Mh%d DEFINITIONS AUTOMATIC TAGS ::= BEGIN\n%s INTEGER ::= %d\n%s ::= SEQUENCE { depth INTEGER (0..%d), ok BOOLEAN }\n'
+               '%s ::= SEQUENCE { more BOOLEAN, depth INTEGER (0..%d), ok BOOLEAN }\n%s ::= CHOICE { radius INTEGER (0..%d), name IA5String }\n%s ::= INTEGER (0..%d)\n'
+               '%sRec%d ::= SEQUENCE { id INTEGER (0..%d), flag BOOLEAN }\nEND\n'
+               % (k, vref, top, base, top, wide, top, shape, top, tube, top, p, k, top))
+        out.append(('combined-notations', [wide, tube, '%sRec%d' % (p, k)], sug, exp))
         # C: parameterized types with 1..3 parameters, instantiated 1..3 times
         targ = rng.choice(['BOOLEAN', 'IA5String', 'NULL', 'INTEGER'])
         v = rng.randint(1, 4000)
